@@ -1,7 +1,8 @@
 """C35 - git object export is consistent and round-trips.
 
 One case = one generated native history (merges, renames, exec flips, symlinks, binary contents, empty
-directories, names whose git order differs from byte order), judged by four groups of oracles:
+directories, names whose git order differs from byte order), judged by three groups of oracles (plus a live
+monitor on breezy.git.fetch.import_git_commit: the trees it caches must keep describing their own revision):
 
  (a) from-scratch reference.  For every revision the harness builds dulwich Blob / Tree objects straight
      from the revision-tree snapshot (modes 100644 / 100755 / 120000 / 040000, empty directories omitted,
@@ -39,7 +40,7 @@ LEVEL_TEXT = ("generated native histories (quick <= 8 revisions / 3 branches, th
 RULE = ("one evaluation = one revision judged by one oracle group (a / b / c); distinct = distinct (tree snapshot, parents' "
         "snapshots, oracle group); non-trivial = the revision's tree has a sub-directory, a symlink or an executable "
         "file, or the revision is a merge")
-CASES = {"quick": 64, "thorough": 800}
+CASES = {"quick": 64, "thorough": 700}
 BUDGET_S = {"quick": 45, "thorough": 700}
 MIN_EVALS = {"quick": 400, "thorough": 6000}
 FLOORS = {"a_warm_tree": 150, "a_empty_map_tree": 150, "a_deleted_cache_tree": 150, "a_yielded_object": 300,
@@ -212,6 +213,35 @@ class OneKeyCtx:
         if not cond:
             self.fail(key, msg, detail, stop=stop)
         return cond
+
+
+STORAGE_KEY = "bzr-storage:text-differs-from-recorded-sha1"
+
+
+def storage_intact(ctx, repo, revids):
+    """Pre-pass over an imported repository: every file text must hash to the sha1 its inventory entry records.
+
+    A repository that fails this was damaged below the git layer (seen: 2a `pack(hint)` after the import turning a
+    NUL that follows a shared prefix into 'd', see fixes/C35-observed-2a-pack-corrupts-text-after-nul.md); everything
+    the git oracles would report about it is that one mechanism, so it is reported once under its own key and the
+    git oracles are skipped for that repository."""
+    import hashlib
+
+    seen = set()
+    for brev in revids:
+        if not repo.has_revision(brev):
+            continue
+        t = repo.revision_tree(brev)
+        for path, ie in t.iter_entries_by_dir():
+            if ie.kind != "file" or (ie.file_id, ie.revision) in seen:
+                continue
+            seen.add((ie.file_id, ie.revision))
+            ctx.count("storage_text_checked")
+            if hashlib.sha1(t.get_file_text(path)).hexdigest().encode() != ie.text_sha1:
+                ctx.fail(STORAGE_KEY, "text %r of %s reads back with another sha1 than its inventory entry records" % (path, brev),
+                         {"text": repr(t.get_file_text(path))[:200], "format": repr(repo._format)})
+                return False
+    return True
 
 
 def attempt(ctx, what, fn, detail=None):
@@ -467,6 +497,11 @@ def oracle_b(ctx, rng, h, revs):
         if cold:
             drop_git_cache(td)
         repo = Repository.open(td)
+        if not cold:
+            with repo.lock_read():
+                if not storage_intact(ctx, repo, [default_mapping.revision_id_foreign_to_bzr(sha_of[r]) for r in h.order]):
+                    g.close()
+                    return
         store = BazaarObjectStore(repo)
         pre = "b_cold_" if cold else "b_"
         tag = pfx + ("git-origin-deleted-cache" if cold else "git-origin")
@@ -648,6 +683,8 @@ def oracle_c(ctx, rng, h, revs):
         return
     back = Repository.open(td)
     with back.lock_read():
+        if not storage_intact(ctx, back, [mapped[o][1] for o in h.order if o in mapped]):
+            return
         for old in h.order:
             if old not in mapped:
                 continue
